@@ -333,6 +333,28 @@ func (s *c12Scenario) body(c *mc.Ctx) {
 		if second := renderResults(res2); second != first {
 			c.Fail("C12 "+s.entry+" second check of the same chain differs", "first %s, second %s", first, second)
 		}
+		// the caller owns what it was given: it overwrites every field of a copy of the answer's entries (the judged list res is
+		// copied first), then asks a third time. An answer never shares objects with a later one.
+		for _, r := range res2 {
+			if r == nil {
+				continue
+			}
+			r.Result, r.RevocationMethod = result.ResultRevoked, result.RevocationMethodCRL
+			for _, sr := range r.ServerResults {
+				if sr != nil {
+					sr.Server, sr.Result = "http://policy.example.test/denylist", result.ResultRevoked
+				}
+			}
+			r.ServerResults = append(r.ServerResults, &result.ServerResult{Server: "http://policy.example.test/denylist", Result: result.ResultRevoked})
+		}
+		res3, err3, pan3 := check(chain)
+		if pan3 != nil || err3 != nil {
+			c.Fail("C12 "+s.entry+" third check of the same chain fails", "panic=%v err=%v", pan3, err3)
+		} else if third := renderResults(res3); third != first {
+			c.Fail("C12 "+s.entry+" an answer shares objects with an earlier answer the caller has modified", "first %s, after the caller overwrote the second answer the third reads %s", first, third)
+		} else if now := renderResults(res); now != first {
+			c.Fail("C12 "+s.entry+" result list changed after it was returned", "returned %s, after later calls it reads %s", first, now)
+		}
 	}
 	en := "validate"
 	if s.entry == "checkstatus" {
